@@ -820,8 +820,8 @@ pub open spec fn tag_matches(t: Tag, d: Seq<u8>, o: int) -> bool {
                        "            result@.len() == _tag,\n"
                        "            forall|j: int| 0 <= j < _tag ==> tag_ok(data@, #[trigger] tag_off(data@, j)),\n"
                        "            forall|j: int| 0 <= j < _tag ==> tag_matches(#[trigger] result@[j], data@, tag_off(data@, j)),")},
-         "hints": [("let from_frame =", "        let ghost o = reader.pos();\n        assert(o == tag_off(data@, _tag as int));", "before"),
-                   ("result.push(", "        assert(tag_ok(data@, o));\n        assert(tag_off(data@, _tag as int + 1) == str_end(data@, o + 17));", "before")]},
+         "loop_begins": {1: "        let ghost o = reader.pos();\n        assert(o == tag_off(data@, _tag as int));"},
+         "hints": [("result.push(", "        assert(tag_ok(data@, o));\n        assert(tag_off(data@, _tag as int + 1) == str_end(data@, o + 17));", "before")]},
     ],
 }
 
@@ -862,8 +862,8 @@ pub open spec fn ext_matches(e: ExternalFile, d: Seq<u8>, o: int) -> bool {
                        "            forall|j: int| 0 <= j < results@.len() ==> ext_matches(#[trigger] results@[j], data@, ext_off(data@, j)),\n"
                        "            12 <= reader.pos() <= data@.len(),")},
          "body_rewrites": [("for _ in 0..entry_ct", "for _ in it: 0..entry_ct")],   # names Verus' ghost iterator; no semantic change
-         "hints": [("let id = ExternalFileId::new", "            let ghost o = reader.pos();\n            let ghost k = results@.len() as int;", "before"),
-                   ("results.push(", "            assert(ext_ok(data@, o));\n            assert(ext_off(data@, k + 1) == str_end(data@, o + 12));", "before")],
+         "loop_begins": {1: "            let ghost o = reader.pos();\n            let ghost k = results@.len() as int;"},
+         "hints": [("results.push(", "            assert(ext_ok(data@, o));\n            assert(ext_off(data@, k + 1) == str_end(data@, o + 12));", "before")],
          },
         {"kind": "struct", "file": "external_file", "name": "ExternalFilesById", "keep": None},
         {"kind": "fn", "file": "external_file", "name": "id", "key": "ExternalFile::id", "impl_of": "ExternalFile", "impl_filter": r"impl\s+ExternalFile\s", "ret": "r", "ensures": "        *r == self.id,"},
@@ -873,6 +873,22 @@ pub open spec fn ext_matches(e: ExternalFile, d: Seq<u8>, o: int) -> bool {
          "ensures": "        // stored under its own id; a later entry with the same id replaces the earlier one\n        final(self).0@ == old(self).0@.insert(external_file.id, external_file),"},
         {"kind": "fn", "file": "external_file", "name": "get", "key": "ExternalFilesById::get", "impl_of": "ExternalFilesById", "ret": "r",
          "ensures": "        (r is Some) == self.0@.contains_key(*id), r is Some ==> *(r->0) == self.0@[*id],"},
+        {"kind": "fn", "file": "external_file", "name": "name", "key": "ExternalFile::name", "impl_of": "ExternalFile", "impl_filter": r"impl\s+ExternalFile\s", "ret": "r", "ensures": "        r@ == self.name@,"},
+        {"kind": "struct", "file": "parse", "name": "ParseInfo", "keep": ["external_files"]},
+        {"kind": "verbatim", "text": """
+/// the table after the first n entries of a chunk's list have been added, in file order (a later entry with the same id replaces an earlier one)
+pub open spec fn ext_fold(m: Map<ExternalFileId, ExternalFile>, s: Seq<ExternalFile>, n: int) -> Map<ExternalFileId, ExternalFile>
+    decreases n,
+{
+    if n <= 0 { m } else { ext_fold(m, s, n - 1).insert(s[n - 1].id, s[n - 1]) }
+}
+"""},
+        {"kind": "fn", "file": "parse", "name": "add_external_files", "impl_of": "ParseInfo",
+         "body_rewrites": [("for external_file in files {", "for external_file in it: files {")],
+         "ensures": "        // C01: every entry of an external-files chunk is stored under its own id, in file order\n        final(self).external_files.0@ == ext_fold(old(self).external_files.0@, files@, files@.len() as int),",
+         "loops": {1: ("            invariant\n"
+                       "                it.snapshot@.remaining() == files@,\n"
+                       "                self.external_files.0@ == ext_fold(old(self).external_files.0@, files@, it.index@ as int),")}},
     ],
 }
 
@@ -880,8 +896,22 @@ pub open spec fn ext_matches(e: ExternalFile, d: Seq<u8>, o: int) -> bool {
 # straight-line decoders: every field is the layout read at its offset, in file order (C01, C06, C08, C15)
 RD = [("<R: Read>", ""), ("AseReader<R>", "AseReader")]
 UNITS["dec_small"] = {
-    "prelude_sections": ["errors", "reader"],
+    "prelude_sections": ["errors", "rgba_only", "reader"],
     "items": [
+        # the per-pixel / per-tile constructors that the chunks_exact chains of from_bytes / Tiles::unzip map over (unit pixel_readers: R23-R25)
+        {"kind": "struct", "file": "pixel", "name": "Grayscale", "keep": None, "attrs": "#[derive(Clone, Copy)]\n"},
+        {"kind": "fn", "file": "pixel", "name": "new", "key": "Grayscale::new", "impl_of": "Grayscale", "ret": "r",
+         "ensures": "        r is Ok <==> chunk@.len() >= 2, r is Ok ==> r->Ok_0.value == chunk@[0] && r->Ok_0.alpha == chunk@[1],"},
+        {"kind": "fn", "file": "pixel", "name": "read_rgba", "ret": "r",
+         "ensures": "        r is Ok <==> chunk@.len() >= 4, r is Ok ==> r->Ok_0.0@ == seq![chunk@[0], chunk@[1], chunk@[2], chunk@[3]],"},
+        {"kind": "struct", "file": "tile", "name": "TileId", "keep": None, "attrs": "#[derive(Clone, Copy)]\n"},
+        {"kind": "struct", "file": "tile", "name": "Tile", "keep": None},
+        {"kind": "fn", "file": "tile", "name": "as_bool", "ret": "r", "ensures": "        r == (bitwise_and != 0),"},
+        {"kind": "fn", "file": "tile", "name": "parse", "key": "Tile::parse", "impl_of": "Tile", "ret": "r",
+         "ensures": "        r.id.0 == bits & header.tile_id, r.flip_x == (bits & header.x_flip != 0), r.flip_y == (bits & header.y_flip != 0), r.rotate_90cw == (bits & header.rotate_90cw != 0),"},
+        {"kind": "fn", "file": "tile", "name": "new", "key": "Tile::new", "impl_of": "Tile", "ret": "r",
+         "closures": [{"after": ".map(", "params": "bits: u32", "ret": "t: Tile", "ensures": "t.id.0 == bits & header.tile_id"}],
+         "ensures": "        r is Ok <==> chunk@.len() >= 4, r is Ok ==> r->Ok_0.id.0 as int == (le_u32(chunk@, 0) as u32 & header.tile_id) as int,"},
         {"kind": "struct", "file": "cel", "name": "CelCommon", "keep": None},
         {"kind": "fn", "file": "cel", "name": "parse", "key": "CelCommon::parse", "impl_of": "CelCommon", "ret": "r", "sig_rewrites": RD,
          "ensures": ("        final(reader).data() == old(reader).data(),\n"
@@ -967,7 +997,7 @@ pub open spec fn cp_ok(d: Seq<u8>) -> bool {
 }
 
 UNITS["dec_cel"] = {
-    "prelude_sections": ["errors", "rgba_only", "reader"],
+    "prelude_sections": ["errors", "arch", "rgba_only", "reader"],
     "items": [
         {"kind": "struct", "file": "user_data", "name": "UserData", "keep": None, "rewrites": [("image::Rgba<u8>", "Rgba<u8>")]},
         {"kind": "enum", "file": "file", "name": "PixelFormat", "attrs": "#[derive(Clone, Copy)]\n"},
@@ -983,10 +1013,11 @@ pub struct RawPixels { _p: core::marker::PhantomData<u8> }
 pub struct Tiles { _p: core::marker::PhantomData<u8> }
 impl Tiles {
     pub uninterp spec fn len(&self) -> int;
-    /// tile::Tiles::unzip: inflates 4*count bytes (the length check in AseReader::unzip makes a different
-    /// decoded length an error) and decodes one tile per 4 bytes - ASSUMED (iterator chain + zlib)
+    /// tile::Tiles::unzip: the contract that unit `pixel_readers` proves for the real function (restated over this unit's
+    /// reader model): 4 * count has to fit a usize; success = exactly the expected number of tiles
     #[verifier::external_body]
     pub fn unzip(reader: AseReader, expected_tile_count: usize, header: &TileBitmaskHeader) -> (r: Result<Tiles>)
+        requires 4 * expected_tile_count <= usize::MAX,
         ensures r is Ok ==> r->Ok_0.len() == expected_tile_count,
     { unimplemented!() }
 }
@@ -1016,26 +1047,59 @@ impl Tiles {
                      "               && r->Ok_0.tiles.len() == (r->Ok_0.width as int) * (r->Ok_0.height as int) }),"),
          "hints": [("let expected_tile_count =", "        assert((width as int) * (height as int) <= 65535 * 65535) by (nonlinear_arith)\n            requires 0 <= (width as int) <= 65535, 0 <= (height as int) <= 65535;", "before")]},
         {"kind": "verbatim", "text": """
-/// raw / compressed image cel payloads (ImageSize + pixel data through take_bytes / zlib): ASSUMED contract –
-/// on success the stored size is the size read at the cursor (the pixel payload itself is covered by the Kani
-/// obligations k_cel_raw_* and by Engine X)
-#[verifier::external_body]
-fn parse_raw_cel(reader: AseReader, pixel_format: PixelFormat) -> (r: Result<ImageContent<RawPixels>>)
-    ensures r is Ok ==> reader.pos() + 4 <= reader.data().len()
-        && r->Ok_0.size.width as int == le_u16(reader.data(), reader.pos()) && r->Ok_0.size.height as int == le_u16(reader.data(), reader.pos() + 2),
-{ unimplemented!() }
-#[verifier::external_body]
-fn parse_compressed_cel(reader: AseReader, pixel_format: PixelFormat) -> (r: Result<ImageContent<RawPixels>>)
-    ensures r is Ok ==> reader.pos() + 4 <= reader.data().len()
-        && r->Ok_0.size.width as int == le_u16(reader.data(), reader.pos()) && r->Ok_0.size.height as int == le_u16(reader.data(), reader.pos() + 2),
-{ unimplemented!() }
+pub open spec fn bpp(f: PixelFormat) -> usize { match f { PixelFormat::Rgba => 4usize, PixelFormat::Grayscale => 2usize, PixelFormat::Indexed { .. } => 1usize } }
+impl RawPixels {
+    /// number of decoded pixels
+    pub uninterp spec fn px_len(&self) -> nat;
+    /// the contracts that unit `pixel_readers` proves for the real RawPixels::from_raw / from_compressed, restated over this
+    /// unit's reader model: they need bpp * count to fit a usize and deliver exactly `expected_pixel_count` pixels
+    #[verifier::external_body]
+    pub fn from_raw(reader: AseReader, pixel_format: PixelFormat, expected_pixel_count: usize) -> (r: Result<RawPixels>)
+        requires bpp(pixel_format) * expected_pixel_count <= usize::MAX,
+        ensures r is Ok ==> r->Ok_0.px_len() == expected_pixel_count,
+    { unimplemented!() }
+    #[verifier::external_body]
+    pub fn from_compressed(reader: AseReader, pixel_format: PixelFormat, expected_pixel_count: usize) -> (r: Result<RawPixels>)
+        requires bpp(pixel_format) * expected_pixel_count <= usize::MAX,
+        ensures r is Ok ==> r->Ok_0.px_len() == expected_pixel_count,
+    { unimplemented!() }
+}
 """},
+        {"kind": "fn", "file": "cel", "name": "parse", "key": "ImageSize::parse", "impl_of": "ImageSize", "ret": "r", "sig_rewrites": RD,
+         "ensures": ("        final(reader).data() == old(reader).data(),\n"
+                     "        r is Ok <==> old(reader).pos() + 4 <= old(reader).data().len(),\n"
+                     "        r is Ok ==> r->Ok_0.width as int == le_u16(old(reader).data(), old(reader).pos()) && r->Ok_0.height as int == le_u16(old(reader).data(), old(reader).pos() + 2)\n"
+                     "            && final(reader).pos() == old(reader).pos() + 4,")},
+        {"kind": "fn", "file": "cel", "name": "pixel_count", "key": "ImageSize::pixel_count", "impl_of": "ImageSize", "ret": "r",
+         "ensures": "        r as int == (self.width as int) * (self.height as int),",
+         "prologue": "        assert((self.width as int) * (self.height as int) <= 65535 * 65535) by (nonlinear_arith)\n            requires 0 <= (self.width as int) <= 65535, 0 <= (self.height as int) <= 65535;"},
+        {"kind": "fn", "file": "cel", "name": "parse_raw_cel", "ret": "r", "rules": ["R1", "R6", "R11"], "sig_rewrites": [("<R: Read>", ""), ("AseReader<R>", "AseReader")],
+         "closures": [{"after": ".map(", "params": "pixels: RawPixels", "ret": "o: ImageContent<RawPixels>", "ensures": "o.size == size && o.pixels == pixels"}],
+         "prologue": "        let ghost d = reader.data(); let ghost o0 = reader.pos();",
+         "hints": [("let size = ImageSize::parse(&mut reader)?;", "        assert((size.width as int) * (size.height as int) <= 65535 * 65535) by (nonlinear_arith)\n            requires 0 <= (size.width as int) <= 65535, 0 <= (size.height as int) <= 65535;\n"
+                    "        assert((bpp(pixel_format) as int) * ((size.width as int) * (size.height as int)) <= 4 * (65535 * 65535)) by (nonlinear_arith)\n"
+                    "            requires 1 <= (bpp(pixel_format) as int) <= 4, 0 <= (size.width as int) * (size.height as int) <= 65535 * 65535;", "after")],
+         "ensures": ("        // C05: an image cel that loads has exactly width * height pixels (the renderer's row-major index relies on it)\n"
+                     "        r is Ok ==> reader.pos() + 4 <= reader.data().len()\n"
+                     "            && r->Ok_0.size.width as int == le_u16(reader.data(), reader.pos()) && r->Ok_0.size.height as int == le_u16(reader.data(), reader.pos() + 2)\n"
+                     "            && r->Ok_0.pixels.px_len() == (r->Ok_0.size.width as int) * (r->Ok_0.size.height as int),")},
+        {"kind": "fn", "file": "cel", "name": "parse_compressed_cel", "ret": "r", "rules": ["R1", "R6", "R11"], "sig_rewrites": [("<R: Read>", ""), ("AseReader<R>", "AseReader")],
+         "closures": [{"after": ".map(", "params": "pixels: RawPixels", "ret": "o: ImageContent<RawPixels>", "ensures": "o.size == size && o.pixels == pixels"}],
+         "prologue": "        let ghost d = reader.data(); let ghost o0 = reader.pos();",
+         "hints": [("let size = ImageSize::parse(&mut reader)?;", "        assert((size.width as int) * (size.height as int) <= 65535 * 65535) by (nonlinear_arith)\n            requires 0 <= (size.width as int) <= 65535, 0 <= (size.height as int) <= 65535;\n"
+                    "        assert((bpp(pixel_format) as int) * ((size.width as int) * (size.height as int)) <= 4 * (65535 * 65535)) by (nonlinear_arith)\n"
+                    "            requires 1 <= (bpp(pixel_format) as int) <= 4, 0 <= (size.width as int) * (size.height as int) <= 65535 * 65535;", "after")],
+         "ensures": ("        // C05: an image cel that loads has exactly width * height pixels (the renderer's row-major index relies on it)\n"
+                     "        r is Ok ==> reader.pos() + 4 <= reader.data().len()\n"
+                     "            && r->Ok_0.size.width as int == le_u16(reader.data(), reader.pos()) && r->Ok_0.size.height as int == le_u16(reader.data(), reader.pos() + 2)\n"
+                     "            && r->Ok_0.pixels.px_len() == (r->Ok_0.size.width as int) * (r->Ok_0.size.height as int),")},
         {"kind": "fn", "file": "cel", "name": "parse", "key": "CelContent::parse", "impl_of": "CelContent", "impl_filter": r"impl\s+CelContent<RawPixels>",
          "impl_header": "CelContent<RawPixels>", "ret": "r", "rules": ["R1", "R6", "R11", "R12"], "sig_rewrites": RD,
          "ensures": ("        ({ let d = reader.data(); let o = reader.pos();\n"
                      "           &&& cel_type > 3 ==> r is Err                                      // C15: unknown cel types are refused\n"
                      "           &&& cel_type == 1 ==> ((r is Ok) == (o + 2 <= d.len())) && (r is Ok ==> r->Ok_0 is Linked && r->Ok_0->Linked_0 as int == le_u16(d, o))\n"
                      "           &&& (cel_type == 0 || cel_type == 2) && r is Ok ==> r->Ok_0 is Raw && r->Ok_0->Raw_0.size.width as int == le_u16(d, o) && r->Ok_0->Raw_0.size.height as int == le_u16(d, o + 2)\n"
+                     "               && r->Ok_0->Raw_0.pixels.px_len() == (r->Ok_0->Raw_0.size.width as int) * (r->Ok_0->Raw_0.size.height as int)   // C05: exactly width * height pixels\n"
                      "           &&& cel_type == 3 && r is Ok ==> r->Ok_0 is Tilemap && r->Ok_0->Tilemap_0.width as int == le_u16(d, o) && le_u16(d, o + 4) == 32 }),")},
         {"kind": "fn", "file": "cel", "name": "parse_chunk", "key": "cel::parse_chunk", "ret": "r", "rules": ["R1", "R6", "R11"],
          "ensures": ("        ({ let d = data@;\n"
@@ -1046,12 +1110,13 @@ fn parse_compressed_cel(reader: AseReader, pixel_format: PixelFormat) -> (r: Res
                      "           &&& d.len() >= 9 && le_u16(d, 7) == 1 ==> ((r is Ok) == (d.len() >= 18)) && (r is Ok ==> r->Ok_0.content is Linked && r->Ok_0.content->Linked_0 as int == le_u16(d, 16))\n"
                      "           &&& r is Ok && (le_u16(d, 7) == 0 || le_u16(d, 7) == 2) ==> r->Ok_0.content is Raw && r->Ok_0.content->Raw_0.size.width as int == le_u16(d, 16)\n"
                      "               && r->Ok_0.content->Raw_0.size.height as int == le_u16(d, 18)\n"
+                     "               && r->Ok_0.content->Raw_0.pixels.px_len() == (r->Ok_0.content->Raw_0.size.width as int) * (r->Ok_0.content->Raw_0.size.height as int)\n"
                      "           &&& r is Ok && le_u16(d, 7) == 3 ==> r->Ok_0.content is Tilemap && le_u16(d, 20) == 32 }),")},
     ],
 }
 
 UNITS["dec_tileset"] = {
-    "prelude_sections": ["errors", "reader", "std_extra"],
+    "prelude_sections": ["errors", "arch", "reader", "std_extra"],
     "items": [
         {"kind": "enum", "file": "file", "name": "PixelFormat", "attrs": "#[derive(Clone, Copy)]\n"},
         {"kind": "fn", "file": "file", "name": "bytes_per_pixel", "impl_of": "PixelFormat", "ret": "r",
@@ -1081,10 +1146,17 @@ impl TilesetFlags {
 #[verifier::external_body]
 pub struct RawPixels { _p: core::marker::PhantomData<u8> }
 impl RawPixels {
+    /// number of decoded pixels
+    pub uninterp spec fn px_len(&self) -> nat;
+    /// the contract that unit `pixel_readers` proves for the real RawPixels::from_compressed (restated over this unit's reader
+    /// model): bpp * count has to fit a usize (output_size multiplies unchecked); success = exactly the expected pixel count
     #[verifier::external_body]
     pub fn from_compressed(reader: AseReader, pixel_format: PixelFormat, expected_pixel_count: usize) -> (r: Result<RawPixels>)
+        requires bpp(pixel_format) * expected_pixel_count <= usize::MAX,
+        ensures r is Ok ==> r->Ok_0.px_len() == expected_pixel_count,
     { unimplemented!() }
 }
+pub open spec fn bpp(f: PixelFormat) -> usize { match f { PixelFormat::Rgba => 4usize, PixelFormat::Grayscale => 2usize, PixelFormat::Indexed { .. } => 1usize } }
 /// tileset chunk 0x2023: id(4) flags(4) tile count(4) tile w(2) tile h(2) base index(2) reserved(14) name(STRING)
 /// [external file id(4) tileset id(4) if flag 1] [compressed length(4) + zlib pixels if flag 2]
 pub open spec fn ts_flag(d: Seq<u8>, bit: int) -> bool { (le_u32(d, 4) / bit) % 2 == 1 }
@@ -1105,6 +1177,10 @@ pub open spec fn ts_head_ok(d: Seq<u8>) -> bool {
         {"kind": "fn", "file": "tileset", "name": "parse_chunk", "key": "Tileset::parse_chunk", "impl_of": "Tileset", "impl_filter": r"impl\s+Tileset<RawPixels>",
          "impl_header": "Tileset<RawPixels>", "ret": "r", "rules": ["R1", "R6", "R11", "R12"],
          "body_rewrites": [("RawPixels::from_compressed(reader, pixel_format, expected_pixel_count).map(Some)?", "Some(RawPixels::from_compressed(reader, pixel_format, expected_pixel_count)?)")],
+         "closures": [{"after": ".and_then(", "params": "n: usize", "ret": "o: Option<usize>",
+                       "ensures": "o is Some ==> o->0 as int == (n as int) * (tile_width as int)"},
+                      {"after": ".filter(", "params": "n: &usize", "ret": "keep: bool",
+                       "ensures": "keep ==> (*n as int) * (bpp(pixel_format) as int) <= usize::MAX"}],
          "ensures": ("        ({ let d = data@;\n"
                      "           &&& r is Ok ==> ts_head_ok(d)\n"
                      "           &&& !ts_flag(d, 2) ==> ((r is Ok) == ts_head_ok(d))\n"
@@ -1116,7 +1192,9 @@ pub open spec fn ts_head_ok(d: Seq<u8>) -> bool {
                      "                &&& t.name@ == utf8_text(str_bytes(d, 32))\n"
                      "                &&& (t.external_file is Some) == ts_flag(d, 1)\n"
                      "                &&& ts_flag(d, 1) ==> t.external_file->0.external_file_id.0 as int == le_u32(d, str_end(d, 32)) && t.external_file->0.tileset_id as int == le_u32(d, str_end(d, 32) + 4)\n"
-                     "                &&& (t.pixels is Some) == ts_flag(d, 2) }) }),"),
+                     "                &&& (t.pixels is Some) == ts_flag(d, 2)\n"
+                     "                // C05: exactly tile count * tile height * tile width pixels (Tileset::image / tile_image rely on it: unit tileset_image)\n"
+                     "                &&& t.pixels is Some ==> t.pixels->0.px_len() == (t.tile_count as int) * (t.tile_size.height as int) * (t.tile_size.width as int) }) }),"),
          "hints": [("let tile_height = reader.word()?;",
                     "        assert((tile_count as int) * (tile_height as int) <= 0xffff_ffff * 0xffff) by (nonlinear_arith)\n"
                     "            requires 0 <= (tile_count as int) <= 0xffff_ffff, 0 <= (tile_height as int) <= 0xffff;", "after"),
@@ -1230,8 +1308,8 @@ pub open spec fn pe_matches(e: ColorPaletteEntry, d: Seq<u8>, o: int, id: int) -
                        "            forall|j: int| 0 <= j < it.index@ ==> pe_ok(data@, #[trigger] pe_off(data@, j)),\n"
                        "            forall|i: u32| entries@.contains_key(i) <==> first_color_index <= i && (i as int) < first_color_index + it.index@,\n"
                        "            forall|i: u32| first_color_index <= i && (i as int) < first_color_index + it.index@ ==> pe_matches(#[trigger] entries@[i], data@, pe_off(data@, i as int - first_color_index), i as int),")},
-         "hints": [("let flags = reader.word()?;", "        let ghost o = reader.pos();\n        let ghost k = it.index@ as int;\n        assert(id as int == first_color_index + k);", "before"),
-                   ("let name = if", "        assert((flags & 1 == 1) == (flags % 2 == 1)) by (bit_vector);", "before"),
+         "loop_begins": {1: "        let ghost o = reader.pos();\n        let ghost k = it.index@ as int;\n        assert(id as int == first_color_index + k);"},
+         "hints": [("let name = if", "        assert((flags & 1 == 1) == (flags % 2 == 1)) by (bit_vector);", "before"),
                    ("entries.insert(", "        assert(pe_ok(data@, o));\n        assert(pe_off(data@, k + 1) == pe_end(data@, o));", "before")],
          },
         {"kind": "fn", "file": "palette", "name": "parse_old_chunk_04", "ret": "r", "rules": ["R1", "R6", "R11"],
@@ -1258,10 +1336,9 @@ pub open spec fn pe_matches(e: ColorPaletteEntry, d: Seq<u8>, o: int, id: int) -
                        "                forall|i: u32| #[trigger] entries@.contains_key(i) <==> ((skip <= i && (i as int) < skip + it2.index@) || old_src(data@, kk, i as int) is Some),\n"
                        "                forall|i: u32| entries@.contains_key(i) ==> old_entry_ok(#[trigger] entries@[i], data@,\n"
                        "                    if skip <= i && (i as int) < skip + it2.index@ { o0 + 2 + 3 * (i - skip) } else { old_src(data@, kk, i as int)->0 }, i as int, false),")},
-         "hints": [("skip += reader.byte()? as u32;",
-                    "        let ghost kk = it.index@ as int;\n        let ghost o0 = reader.pos();\n"
-                    "        assert(pk_end(data@, kk) >= o0 + 5);", "before"),
-                   ("let red =", "            let ghost jj = it2.index@ as int;\n            assert(id as int == skip + jj);\n"
+         "loop_begins": {1: ("        let ghost kk = it.index@ as int;\n        let ghost o0 = reader.pos();\n"
+                             "        assert(pk_end(data@, kk) >= o0 + 5);")},
+         "hints": [("let red =", "            let ghost jj = it2.index@ as int;\n            assert(id as int == skip + jj);\n"
                     "            assert(pk_comp(data@, kk, 3 * jj) == data@[reader.pos()] && pk_comp(data@, kk, 3 * jj + 1) == data@[reader.pos() + 1] && pk_comp(data@, kk, 3 * jj + 2) == data@[reader.pos() + 2]);\n"
                     "            assert(0 <= 3 * jj && 3 * jj + 2 < 3 * pk_count(data@, pk_off(data@, kk)));", "before")],
          "loop_ends": {1: ("        proof {\n"
@@ -1293,10 +1370,9 @@ pub open spec fn pe_matches(e: ColorPaletteEntry, d: Seq<u8>, o: int, id: int) -
                        "                forall|i: u32| #[trigger] entries@.contains_key(i) <==> ((skip <= i && (i as int) < skip + it2.index@) || old_src(data@, kk, i as int) is Some),\n"
                        "                forall|i: u32| entries@.contains_key(i) ==> old_entry_ok(#[trigger] entries@[i], data@,\n"
                        "                    if skip <= i && (i as int) < skip + it2.index@ { o0 + 2 + 3 * (i - skip) } else { old_src(data@, kk, i as int)->0 }, i as int, true),")},
-         "hints": [("skip += reader.byte()? as u32;",
-                    "        let ghost kk = it.index@ as int;\n        let ghost o0 = reader.pos();\n"
-                    "        assert(pk_end(data@, kk) >= o0 + 5);", "before"),
-                   ("let red =", "            let ghost jj = it2.index@ as int;\n            assert(id as int == skip + jj);\n"
+         "loop_begins": {1: ("        let ghost kk = it.index@ as int;\n        let ghost o0 = reader.pos();\n"
+                             "        assert(pk_end(data@, kk) >= o0 + 5);")},
+         "hints": [("let red =", "            let ghost jj = it2.index@ as int;\n            assert(id as int == skip + jj);\n"
                     "            assert(pk_comp(data@, kk, 3 * jj) == data@[reader.pos()] && pk_comp(data@, kk, 3 * jj + 1) == data@[reader.pos() + 1] && pk_comp(data@, kk, 3 * jj + 2) == data@[reader.pos() + 2]);\n"
                     "            assert(0 <= 3 * jj && 3 * jj + 2 < 3 * pk_count(data@, pk_off(data@, kk)));", "before")],
          "loop_ends": {1: ("        proof {\n"
@@ -1388,6 +1464,8 @@ UNITS["pixels"] = {
         {"kind": "struct", "file": "palette", "name": "ColorPalette", "keep": None},
         {"kind": "fn", "file": "palette", "name": "color", "impl_of": "ColorPalette", "ret": "r",
          "ensures": "        (r is Some) == self.entries@.contains_key(index), r is Some ==> *(r->0) == self.entries@[index],"},
+        {"kind": "fn", "file": "palette", "name": "id", "key": "ColorPaletteEntry::id", "impl_of": "ColorPaletteEntry", "ret": "r", "ensures": "        r == self.id,"},
+        {"kind": "fn", "file": "palette", "name": "raw_rgba8", "impl_of": "ColorPaletteEntry", "ret": "r", "ensures": "        r == self.rgba8,"},
         {"kind": "fn", "file": "palette", "name": "red", "impl_of": "ColorPaletteEntry", "ret": "r", "ensures": "        r == self.rgba8@[0],"},
         {"kind": "fn", "file": "palette", "name": "green", "impl_of": "ColorPaletteEntry", "ret": "r", "ensures": "        r == self.rgba8@[1],"},
         {"kind": "fn", "file": "palette", "name": "blue", "impl_of": "ColorPaletteEntry", "ret": "r", "ensures": "        r == self.rgba8@[2],"},
@@ -1751,6 +1829,9 @@ pub open spec fn tileset_validated(src: Tileset<RawPixels>, dst: Tileset<Pixels>
         {'kind': 'fn', 'file': 'tileset', 'name': 'empty_tile_is_id_zero', 'key': 'Tileset::empty_tile_is_id_zero', 'impl_of': 'Tileset', 'impl_filter': 'impl<P>\\s+Tileset<P>', 'impl_header': '<P> Tileset<P>', 'ret': 'r', 'ensures': '        r == self.empty_tile_is_id_zero,'},
         {'kind': 'fn', 'file': 'tileset', 'name': 'tile_count', 'key': 'Tileset::tile_count', 'impl_of': 'Tileset', 'impl_filter': 'impl<P>\\s+Tileset<P>', 'impl_header': '<P> Tileset<P>', 'ret': 'r', 'ensures': '        r == self.tile_count,'},
         {'kind': 'fn', 'file': 'tileset', 'name': 'tile_size', 'key': 'Tileset::tile_size', 'impl_of': 'Tileset', 'impl_filter': 'impl<P>\\s+Tileset<P>', 'impl_header': '<P> Tileset<P>', 'ret': 'r', 'ensures': '        r == self.tile_size,'},
+        {"kind": "fn", "file": "tileset", "name": "external_file_id", "impl_of": "ExternalTilesetReference", "ret": "r", "ensures": "        r == self.external_file_id,"},
+        {"kind": "fn", "file": "tileset", "name": "tileset_id", "impl_of": "ExternalTilesetReference", "ret": "r", "ensures": "        r == self.tileset_id,"},
+        {'kind': 'fn', 'file': 'tileset', 'name': 'name', 'key': 'Tileset::name', 'impl_of': 'Tileset', 'impl_filter': 'impl<P>\\s+Tileset<P>', 'impl_header': '<P> Tileset<P>', 'ret': 'r', 'ensures': '        r@ == self.name@,'},
         {'kind': 'fn', 'file': 'tileset', 'name': 'base_index', 'key': 'Tileset::base_index', 'impl_of': 'Tileset', 'impl_filter': 'impl<P>\\s+Tileset<P>', 'impl_header': '<P> Tileset<P>', 'ret': 'r', 'ensures': '        r == self.base_index,'},
         {'kind': 'fn', 'file': 'tileset', 'name': 'external_file', 'key': 'Tileset::external_file', 'impl_of': 'Tileset', 'impl_filter': 'impl<P>\\s+Tileset<P>', 'impl_header': '<P> Tileset<P>', 'ret': 'r', 'ensures': '        (r is Some) == (self.external_file is Some), r is Some ==> *(r->0) == self.external_file->0,'},
         {"kind": "fn", "file": "tileset", "name": "from_raw", "impl_of": "TilesetId", "ret": "r", "ensures": "        r.0 == value,"},
@@ -1773,6 +1854,37 @@ pub open spec fn tileset_validated(src: Tileset<RawPixels>, dst: Tileset<Pixels>
                        "                forall|k: TilesetId| #[trigger] result@.contains_key(k) <==> exists|i: int| 0 <= i < it.index@ && (#[trigger] it.snapshot@.remaining()[i]).0 == k,\n"
                        "                forall|i: int| 0 <= i < it.index@ ==> tileset_validated((#[trigger] it.snapshot@.remaining()[i]).1, result@[it.snapshot@.remaining()[i].0]),")},
          },
+        {"kind": "verbatim", "fn_name": "tileset_wf_is_preserved", "text": """
+impl RawPixels {
+    pub open spec fn px_len(&self) -> nat {
+        match self { RawPixels::Rgba(d) => d@.len(), RawPixels::Grayscale(d) => d@.len(), RawPixels::Indexed(d) => d@.len() }
+    }
+}
+impl Pixels {
+    pub open spec fn px_len(&self) -> nat {
+        match self { Pixels::Rgba(d) => d@.len(), Pixels::Grayscale(d) => d@.len(), Pixels::Indexed { data, .. } => data@.len() }
+    }
+}
+/// what Tileset::parse_chunk establishes (unit dec_tileset) ...
+pub open spec fn ts_raw_wf(t: Tileset<RawPixels>) -> bool {
+    &&& t.tile_size.width >= 1 && t.tile_size.height >= 1
+    &&& (t.tile_count as int) * (t.tile_size.height as int) <= 0xffff_ffff
+    &&& t.pixels is Some ==> t.pixels->0.px_len() == (t.tile_count as int) * (t.tile_size.height as int) * (t.tile_size.width as int)
+}
+/// ... and what Tileset::image / tile_image require (unit tileset_image)
+pub open spec fn ts_wf(t: Tileset<Pixels>) -> bool {
+    &&& t.pixels is Some
+    &&& t.tile_size.width >= 1 && t.tile_size.height >= 1
+    &&& (t.tile_count as int) * (t.tile_size.height as int) <= 0xffff_ffff
+    &&& t.pixels->0.px_len() == (t.tile_count as int) * (t.tile_size.height as int) * (t.tile_size.width as int)
+}
+/// C05 link: validation carries the decoder's guarantee over to the precondition of the tileset rasterisers
+pub proof fn tileset_wf_is_preserved(src: Tileset<RawPixels>, dst: Tileset<Pixels>)
+    requires ts_raw_wf(src), tileset_validated(src, dst),
+    ensures ts_wf(dst),
+{
+}
+"""},
     ],
 }
 
@@ -2126,5 +2238,411 @@ pub open spec fn ceil_div(a: int, b: int) -> int { (a + b - 1) / b }
         {"kind": "fn", "file": "tilemap", "name": "height", "key": "Tilemap::height", "impl_of": "Tilemap", "impl_header": "<'a> Tilemap<'a>", "ret": "r", "ensures": "        r == self.logical_size.1 as u32,"},
         {"kind": "fn", "file": "tilemap", "name": "tile_size", "key": "Tilemap::tile_size", "impl_of": "Tilemap", "impl_header": "<'a> Tilemap<'a>", "ret": "r",
          "ensures": "        r == (self.tileset.tile_size.width as u32, self.tileset.tile_size.height as u32),"},
+    ],
+}
+
+
+# ------------------------------------------------------------------------------------------------
+# Tileset::image / Tileset::tile_image (C05 for tilesets): on a tileset that loaded, neither panics and both have
+# their documented dimensions and pixels. The precondition ts_wf is what Tileset::parse_chunk (unit dec_tileset)
+# establishes and TilesetsById::validate (unit validate_tilesets: tileset_validated) preserves.
+# ------------------------------------------------------------------------------------------------
+TSI = {"impl_of": "Tileset", "impl_filter": r"impl\s+Tileset<Pixels>", "impl_header": "Tileset<Pixels>"}
+UNITS["tileset_image"] = {
+    "prelude_sections": ["errors", "arch", "rgba_only", "intmap", "utils_shims"],
+    "items": [it for it in UNITS["pixels"]["items"]] + [
+        {"kind": "struct", "file": "external_file", "name": "ExternalFileId", "keep": None, "attrs": "#[derive(Clone, Copy, PartialEq, Eq)]\n"},
+        {"kind": "struct", "file": "tileset", "name": "ExternalTilesetReference", "keep": None},
+        {"kind": "struct", "file": "tileset", "name": "TileSize", "keep": None, "attrs": "#[derive(Clone, Copy)]\n"},
+        {"kind": "struct", "file": "tileset", "name": "Tileset", "keep": None},
+        {"kind": "fn", "file": "tileset", "name": "width", "key": "TileSize::width", "impl_of": "TileSize", "ret": "r", "ensures": "        r == self.width,"},
+        {"kind": "fn", "file": "tileset", "name": "height", "key": "TileSize::height", "impl_of": "TileSize", "ret": "r", "ensures": "        r == self.height,"},
+        {"kind": "fn", "file": "tileset", "name": "pixels_per_tile", "key": "TileSize::pixels_per_tile", "impl_of": "TileSize", "ret": "r",
+         "ensures": "        r as int == (self.width as int) * (self.height as int),",
+         "hints": [("{", "        assert((self.width as int) * (self.height as int) <= 0xffff * 0xffff) by (nonlinear_arith)\n            requires 0 <= (self.width as int) <= 0xffff, 0 <= (self.height as int) <= 0xffff;", "after")]},
+        {"kind": "fn", "file": "tileset", "name": "tile_count", "key": "Tileset::tile_count", "impl_of": "Tileset", "impl_filter": r"impl<P>\s+Tileset<P>", "impl_header": "<P> Tileset<P>", "ret": "r", "ensures": "        r == self.tile_count,"},
+        {"kind": "verbatim", "text": """
+/// the RGBA pixels of a validated pixel store, and the shims for the iterator chains over them
+/// (TRUSTED: std iterator adapters; R19 / R20 name the replaced text; the chains are executed by Engine X)
+#[verifier::external_body]
+pub struct RgbaCow<'a> { _p: core::marker::PhantomData<&'a u8> }
+impl<'a> RgbaCow<'a> {
+    pub uninterp spec fn view(&self) -> Seq<Rgba<u8>>;
+}
+impl Pixels {
+    pub open spec fn px_len(&self) -> nat {
+        match self { Pixels::Rgba(d) => d@.len(), Pixels::Grayscale(d) => d@.len(), Pixels::Indexed { data, .. } => data@.len() }
+    }
+    pub uninterp spec fn rgba(&self) -> Seq<Rgba<u8>>;
+    /// ASSUMED: one RGBA pixel per stored pixel, no panic on validated pixels (per-pixel conversions: unit pixels)
+    #[verifier::external_body]
+    pub fn clone_as_image_rgba(&self) -> (r: RgbaCow<'_>)
+        ensures r.view() == self.rgba(), self.rgba().len() == self.px_len(),
+    { unimplemented!() }
+}
+pub open spec fn imin(a: int, b: int) -> int { if a < b { a } else { b } }
+/// R19: `C.iter().copied().skip(S).take(N).flat_map(|pixel| pixel.0).collect()` - the bytes of pixels S .. S+N (clipped)
+#[verifier::external_body]
+pub fn flat_window(c: &RgbaCow<'_>, skip: usize, take: usize) -> (r: Vec<u8>)
+    ensures r@.len() == 4 * imin(take as int, if c.view().len() >= skip { c.view().len() - skip } else { 0 }),
+        forall|i: int, k: int| 0 <= i && 0 <= k < 4 && 4 * i + k < r@.len() ==> #[trigger] r@[4 * i + k] == c.view()[skip + i].0@[k],
+{ unimplemented!() }
+/// R20: `C.iter().copied().flat_map(|pixel| pixel.0).collect()` - the bytes of all pixels
+#[verifier::external_body]
+pub fn flat_all(c: &RgbaCow<'_>) -> (r: Vec<u8>)
+    ensures r@.len() == 4 * c.view().len(),
+        forall|i: int, k: int| 0 <= i < c.view().len() && 0 <= k < 4 ==> #[trigger] r@[4 * i + k] == c.view()[i].0@[k],
+{ unimplemented!() }
+/// C05 for tilesets: what loading establishes (dec_tileset: ts_head_ok + pixel count; validate_tilesets: preserved)
+pub open spec fn ts_wf(t: &Tileset<Pixels>) -> bool {
+    &&& t.pixels is Some
+    &&& t.tile_size.width >= 1 && t.tile_size.height >= 1
+    &&& (t.tile_count as int) * (t.tile_size.height as int) <= 0xffff_ffff
+    &&& t.pixels->0.px_len() == (t.tile_count as int) * (t.tile_size.height as int) * (t.tile_size.width as int)
+}
+"""},
+        dict(TSI, kind="fn", file="tileset", name="image", key="Tileset::image", ret="r", rules=["R1", "R15"],
+             body_rewrites=[("""pixels
+            .clone_as_image_rgba()
+            .iter()
+            .copied()
+            .flat_map(|pixel| pixel.0)
+            .collect()""", "flat_all(&pixels.clone_as_image_rgba())")],
+             requires="        ts_wf(self),",
+             ensures=("        // documented: all tiles in one vertical strip, width = tile width, height = tile height * tile count\n"
+                      "        r.w() == self.tile_size.width, r.h() == (self.tile_size.height as int) * (self.tile_count as int),\n"
+                      "        r.raw().len() == 4 * self.pixels->0.px_len(),\n"
+                      "        forall|i: int, k: int| 0 <= i < self.pixels->0.px_len() && 0 <= k < 4 ==> #[trigger] r.raw()[4 * i + k] == self.pixels->0.rgba()[i].0@[k],"),
+             hints=[("let image_height =",
+                     "        assert((self.tile_size.height as int) * (self.tile_count as int) == (self.tile_count as int) * (self.tile_size.height as int)) by (nonlinear_arith);", "before"),
+                    ("RgbaImage::from_raw(",
+                     "        assert(4 * (width as int) * (image_height as int) == 4 * ((self.tile_count as int) * (self.tile_size.height as int) * (self.tile_size.width as int))) by (nonlinear_arith)\n"
+                     "            requires width as int == self.tile_size.width as int, image_height as int == (self.tile_size.height as int) * (self.tile_count as int);", "before")]),
+        dict(TSI, kind="fn", file="tileset", name="tile_image", key="Tileset::tile_image", ret="r", rules=["R1", "R15"],
+             body_rewrites=[("""pixels
+            .clone_as_image_rgba()
+            .iter()
+            .copied()
+            .skip(start_ofs)
+            .take(pixels_per_tile)
+            .flat_map(|pixel| pixel.0)
+            .collect()""", "flat_window(&pixels.clone_as_image_rgba(), start_ofs, pixels_per_tile)")],
+             requires="        ts_wf(self),\n        // documented panic: the tile index has to be in range\n        tile_index < self.tile_count,",
+             ensures=("        r.w() == self.tile_size.width, r.h() == self.tile_size.height,\n"
+                      "        // tile t is the t-th block of width * height pixels of the strip\n"
+                      "        r.raw().len() == 4 * (self.tile_size.width as int) * (self.tile_size.height as int),\n"
+                      "        forall|i: int, k: int| 0 <= i < (self.tile_size.width as int) * (self.tile_size.height as int) && 0 <= k < 4 ==>\n"
+                      "            #[trigger] r.raw()[4 * i + k] == self.pixels->0.rgba()[(tile_index as int) * ((self.tile_size.width as int) * (self.tile_size.height as int)) + i].0@[k],"),
+             hints=[("let pixels_per_tile =",
+                     "        assert((width as int) * (height as int) <= 0xffff * 0xffff) by (nonlinear_arith)\n"
+                     "            requires 0 <= (width as int) <= 0xffff, 0 <= (height as int) <= 0xffff;", "before"),
+                    ("let start_ofs =",
+                     "        let ghost wh = (width as int) * (height as int);\n"
+                     "        assert((tile_index as int + 1) * wh <= (self.tile_count as int) * wh) by (nonlinear_arith)\n"
+                     "            requires (tile_index as int) + 1 <= (self.tile_count as int), wh >= 0;\n"
+                     "        assert((self.tile_count as int) * wh == (self.tile_count as int) * (self.tile_size.height as int) * (self.tile_size.width as int)) by (nonlinear_arith)\n"
+                     "            requires wh == (self.tile_size.width as int) * (self.tile_size.height as int);\n"
+                     "        assert((tile_index as int + 1) * wh == (tile_index as int) * wh + wh) by (nonlinear_arith);\n"
+                     "        assert((tile_index as int) * wh >= 0) by (nonlinear_arith) requires tile_index >= 0, wh >= 0;\n"
+                     "        assert((tile_index as int) * wh <= 0xffff_ffff * (0xffff * 0xffff)) by (nonlinear_arith) requires 0 <= (tile_index as int) <= 0xffff_ffff, 0 <= wh <= 0xffff * 0xffff;\n"
+                     "        assert(pixels_per_tile as int == wh);", "before"),
+                    ("RgbaImage::from_raw(",
+                     "        assert(4 * (width as int) * (height as int) == 4 * wh) by (nonlinear_arith) requires wh == (width as int) * (height as int);", "before")]),
+        {"kind": "verbatim", "fn_name": "strip_is_the_tiles_stacked", "text": """
+/// byte k of pixel (x, y) of a row-major RGBA buffer that is w pixels wide
+pub open spec fn px_byte(raw: Seq<u8>, w: int, x: int, y: int, k: int) -> u8 { raw[4 * (y * w + x) + k] }
+/// C08 (last sentence) as a client of the two contracts: byte k of pixel (x, y) of tile t is byte k of pixel
+/// (x, t * tile height + y) of the full image (both row-major, 4 bytes per pixel), and the tile image has the tile size
+pub fn strip_is_the_tiles_stacked(ts: &Tileset<Pixels>, t: u32)
+    requires ts_wf(ts), t < ts.tile_count,
+{
+    let full = ts.image();
+    let tile = ts.tile_image(t);
+    proof {
+        let w = ts.tile_size.width as int;
+        let h = ts.tile_size.height as int;
+        let n = ts.tile_count as int;
+        assert(tile.w() == w && tile.h() == h && full.w() == w && full.h() == h * n);
+        assert forall|x: int, y: int, k: int| 0 <= x < w && 0 <= y < h && 0 <= k < 4 implies
+            #[trigger] px_byte(tile.raw(), w, x, y, k) == px_byte(full.raw(), w, x, (t as int) * h + y, k) by {
+            let i = y * w + x;
+            assert(0 <= i < w * h) by (nonlinear_arith) requires 0 <= x < w, 0 <= y < h, i == y * w + x;
+            assert(((t as int) * h + y) * w + x == (t as int) * (w * h) + i) by (nonlinear_arith) requires i == y * w + x;
+            let j = (t as int) * (w * h) + i;
+            assert(0 <= j < n * h * w) by (nonlinear_arith) requires 0 <= (t as int) < n, 0 <= i < w * h, j == (t as int) * (w * h) + i;
+            assert(tile.raw()[4 * i + k] == ts.pixels->0.rgba()[j].0@[k]);
+            assert(full.raw()[4 * j + k] == ts.pixels->0.rgba()[j].0@[k]);
+        }
+    }
+}
+"""},
+    ],
+}
+
+
+# ------------------------------------------------------------------------------------------------
+# The bulk readers and the pixel readers (C05 / C06 link "decoded pixel count == declared pixel count"; C07 / C13:
+# exactly the declared number of bytes is consumed, fewer is an error): AseReader::{take_bytes, unzip, read_bytes},
+# pixel::output_size, RawPixels::{from_bytes, from_raw, from_compressed}
+# ------------------------------------------------------------------------------------------------
+RDR = {"impl_of": "AseReader", "impl_filter": r"impl<T: Read>\s+AseReader<T>", "impl_header": "AseReader",
+       }
+UNITS["pixel_readers"] = {
+    "prelude_sections": ["arch", "rgba_only"],
+    "items": [
+        {"kind": "verbatim", "text": """
+pub struct IoErr { pub kind: u8 }
+pub enum AsepriteParseError {
+    InvalidInput(String),
+    UnsupportedFeature(String),
+    InternalError(String),
+    IoError(IoErr),
+}
+pub type Result<T> = core::result::Result<T, AsepriteParseError>;
+pub open spec fn imin(a: int, b: int) -> int { if a < b { a } else { b } }
+/// TRUSTED model of a byte source (any `T: Read`, and flate2's ZlibDecoder over one): `rest()` = the bytes it still
+/// delivers, `fails()` = it reports an I/O error instead of delivering them all. `take(n).read_to_end(buf)` has std's
+/// documented semantics: appends the next min(n, rest) bytes; an I/O error is returned already converted by `?`
+/// (`impl From<io::Error> for AsepriteParseError` is `IoError(e)`: k_error_mapping), which folds `?`'s conversion into the shim
+#[verifier::external_body]
+pub struct Input { _p: core::marker::PhantomData<u8> }
+pub struct Take { pub src: Input, pub limit: u64 }
+impl Input {
+    pub uninterp spec fn rest(&self) -> Seq<u8>;
+    pub uninterp spec fn fails(&self) -> bool;
+    pub fn take(self, limit: u64) -> (r: Take)
+        ensures r.src == self, r.limit == limit,
+    { Take { src: self, limit } }
+}
+impl Input {
+    /// R21: `X.by_ref().take(N).read_to_end(B)` (the source stays usable afterwards) -> `X.read_up_to(N, B)`
+    #[verifier::external_body]
+    pub fn read_up_to(&mut self, limit: u64, buf: &mut Vec<u8>) -> (r: Result<usize>)
+        ensures
+            !old(self).fails() ==> r is Ok,
+            r is Err ==> r->Err_0 is IoError,
+            final(self).fails() == old(self).fails(),
+            r is Ok ==> ({ let n = imin(limit as int, old(self).rest().len() as int);
+                &&& r->Ok_0 == n
+                &&& final(buf)@ == old(buf)@ + old(self).rest().subrange(0, n)
+                &&& final(self).rest() == old(self).rest().subrange(n, old(self).rest().len() as int) }),
+    { unimplemented!() }
+}
+/// assumed contract of std's Result::and_then (vstd has the Option one only): Err passes through, Ok goes through the closure
+pub assume_specification<T, E, U, F: FnOnce(T) -> core::result::Result<U, E>>[ core::result::Result::<T, E>::and_then ](res: core::result::Result<T, E>, f: F) -> (b: core::result::Result<U, E>)
+    requires res is Ok ==> f.requires((res->Ok_0,)),
+    ensures res is Err ==> b is Err && b->Err_0 == res->Err_0, res is Ok ==> f.ensures((res->Ok_0,), b),
+;
+/// `std::io::Error::from(std::io::ErrorKind::UnexpectedEof).into()` (R22)
+pub fn io_eof() -> (r: AsepriteParseError)
+    ensures r is IoError,
+{ AsepriteParseError::IoError(IoErr { kind: 1 }) }
+impl Take {
+    #[verifier::external_body]
+    pub fn read_to_end(&mut self, buf: &mut Vec<u8>) -> (r: Result<usize>)
+        ensures
+            !old(self).src.fails() ==> r is Ok,
+            r is Err ==> r->Err_0 is IoError,
+            r is Ok ==> ({ let n = imin(old(self).limit as int, old(self).src.rest().len() as int);
+                &&& r->Ok_0 == n
+                &&& final(buf)@ == old(buf)@ + old(self).src.rest().subrange(0, n)
+                &&& final(self).src.rest() == old(self).src.rest().subrange(n, old(self).src.rest().len() as int) }),
+    { unimplemented!() }
+}
+/// flate2::read::ZlibDecoder::new (TRUSTED): a byte source delivering the inflated stream; a corrupt stream is an I/O error
+pub uninterp spec fn inflated(z: Seq<u8>) -> Seq<u8>;
+pub uninterp spec fn zlib_corrupt(z: Seq<u8>) -> bool;
+pub struct ZlibDecoder {}
+impl ZlibDecoder {
+    #[verifier::external_body]
+    pub fn new(input: Input) -> (r: Input)
+        ensures r.rest() == inflated(input.rest()), r.fails() == (input.fails() || zlib_corrupt(input.rest())),
+    { unimplemented!() }
+}
+"""},
+        {"kind": "struct", "file": "reader", "name": "AseReader", "keep": None, "header": "struct AseReader ", "rewrites": [("input: T", "input: Input")]},
+        dict(RDR, kind="fn", file="reader", name="take_bytes", key="AseReader::take_bytes", ret="r", rules=["R1", "R6", "R11"],
+             ensures=("        // exactly the declared number of bytes, or an error - never fewer, never more (C05 / C06 / C13)\n"
+                      "        r is Ok ==> r->Ok_0@.len() == limit && r->Ok_0@ =~= self.input.rest().subrange(0, limit as int),\n"
+                      "        r is Ok ==> self.input.rest().len() >= limit,\n"
+                      "        // C07: bytes after the declared ones do not matter\n"
+                      "        (!self.input.fails() && self.input.rest().len() >= limit) ==> r is Ok,")),
+        dict(RDR, kind="fn", file="reader", name="read_bytes", key="AseReader::read_bytes", ret="r", rules=["R1", "R6", "R11"],
+             body_rewrites=[("""self.input
+            .by_ref()
+            .take(count as u64)
+            .read_to_end(&mut output)?;""", "self.input.read_up_to(count as u64, &mut output)?;"),
+                            ("std::io::Error::from(std::io::ErrorKind::UnexpectedEof).into()", "io_eof()")],
+             ensures=("        // C13: exactly `count` bytes or an error (a short read is the I/O error UnexpectedEof); C14: the I/O error is returned\n"
+                      "        r is Ok ==> r->Ok_0@.len() == count && old(self).input.rest().len() >= count && r->Ok_0@ =~= old(self).input.rest().subrange(0, count as int),\n"
+                      "        r is Ok ==> final(self).input.rest() == old(self).input.rest().subrange(count as int, old(self).input.rest().len() as int),\n"
+                      "        r is Err ==> r->Err_0 is IoError,\n"
+                      "        (!old(self).input.fails() && old(self).input.rest().len() >= count) ==> r is Ok,\n"
+                      "        old(self).input.rest().len() < count ==> r is Err,")),
+        dict(RDR, kind="fn", file="reader", name="unzip", key="AseReader::unzip", ret="r", rules=["R1", "R6", "R11"],
+             ensures=("        // the inflated stream has exactly the expected size, or the load fails\n"
+                      "        r is Ok ==> r->Ok_0@.len() == expected_output_size && inflated(self.input.rest()).len() >= expected_output_size\n"
+                      "            && r->Ok_0@ =~= inflated(self.input.rest()).subrange(0, expected_output_size as int),\n"
+                      "        // ... and nothing follows it (one more byte is requested to see that; usize::MAX itself cannot be exceeded)\n"
+                      "        (r is Ok && expected_output_size < usize::MAX) ==> inflated(self.input.rest()).len() == expected_output_size,\n"
+                      "        (!self.input.fails() && !zlib_corrupt(self.input.rest()) && inflated(self.input.rest()).len() == expected_output_size) ==> r is Ok,")),
+        {"kind": "enum", "file": "file", "name": "PixelFormat", "attrs": "#[derive(Clone, Copy)]\n"},
+        {"kind": "fn", "file": "file", "name": "bytes_per_pixel", "impl_of": "PixelFormat", "ret": "r",
+         "ensures": "        r == bpp(*self),"},
+        {"kind": "struct", "file": "pixel", "name": "Grayscale", "keep": None, "attrs": "#[derive(Clone, Copy)]\n"},
+        {"kind": "enum", "file": "pixel", "name": "RawPixels"},
+        {"kind": "verbatim", "text": """
+pub open spec fn bpp(f: PixelFormat) -> usize { match f { PixelFormat::Rgba => 4usize, PixelFormat::Grayscale => 2usize, PixelFormat::Indexed { .. } => 1usize } }
+impl RawPixels {
+    pub open spec fn px_len(&self) -> nat {
+        match self { RawPixels::Rgba(d) => d@.len(), RawPixels::Grayscale(d) => d@.len(), RawPixels::Indexed(d) => d@.len() }
+    }
+}
+/// C06: how stored bytes become pixels - RGBA verbatim (4 bytes), grayscale (value, alpha) pairs, indexed one byte each
+pub open spec fn decodes(px: RawPixels, b: Seq<u8>, f: PixelFormat) -> bool {
+    match f {
+        PixelFormat::Rgba => px is Rgba && 4 * px->Rgba_0@.len() == b.len()
+            && forall|i: int, k: int| 0 <= i < px->Rgba_0@.len() && 0 <= k < 4 ==> (#[trigger] px->Rgba_0@[i].0@[k]) == b[4 * i + k],
+        PixelFormat::Grayscale => px is Grayscale && 2 * px->Grayscale_0@.len() == b.len()
+            && forall|i: int| 0 <= i < px->Grayscale_0@.len() ==> (#[trigger] px->Grayscale_0@[i]).value == b[2 * i] && px->Grayscale_0@[i].alpha == b[2 * i + 1],
+        PixelFormat::Indexed { .. } => px is Indexed && px->Indexed_0@ == b,
+    }
+}
+/// R23 / R24: `B.chunks_exact(2).map(Grayscale::new).collect()` and `B.chunks_exact(4).map(read_rgba).collect()` (TRUSTED shims
+/// for the iterator chains; the per-chunk constructors read 2 / 4 bytes in order: Kani k_from_bytes_*, k_gray_rgba)
+#[verifier::external_body]
+pub fn collect_gray(b: &Vec<u8>) -> (r: Result<Vec<Grayscale>>)
+    ensures r is Ok, r->Ok_0@.len() == b@.len() / 2,
+        forall|i: int| 0 <= i < r->Ok_0@.len() ==> (#[trigger] r->Ok_0@[i]).value == b@[2 * i] && r->Ok_0@[i].alpha == b@[2 * i + 1],
+{ unimplemented!() }
+#[verifier::external_body]
+pub fn collect_rgba(b: &Vec<u8>) -> (r: Result<Vec<Rgba<u8>>>)
+    ensures r is Ok, r->Ok_0@.len() == b@.len() / 4,
+        forall|i: int, k: int| 0 <= i < r->Ok_0@.len() && 0 <= k < 4 ==> (#[trigger] r->Ok_0@[i].0@[k]) == b@[4 * i + k],
+{ unimplemented!() }
+"""},
+        {"kind": "fn", "file": "pixel", "name": "output_size", "ret": "r",
+         "requires": "        bpp(pixel_format) * expected_pixel_count <= usize::MAX,",
+         "ensures": "        r == bpp(pixel_format) * expected_pixel_count,"},
+        {"kind": "fn", "file": "pixel", "name": "from_bytes", "key": "RawPixels::from_bytes", "impl_of": "RawPixels", "ret": "r", "rules": ["R1", "R6", "R11"],
+         "body_rewrites": [("bytes.chunks_exact(2).map(Grayscale::new).collect()", "collect_gray(&bytes)"),
+                           ("bytes.chunks_exact(4).map(read_rgba).collect()", "collect_rgba(&bytes)"),
+                           ("pixels.map(Self::Grayscale)", "match pixels { Ok(v) => Ok(Self::Grayscale(v)), Err(e) => Err(e) }"),
+                           ("pixels.map(Self::Rgba)", "match pixels { Ok(v) => Ok(Self::Rgba(v)), Err(e) => Err(e) }")],
+         "ensures": ("        // a byte count that is not a whole number of pixels is refused, everything else decodes (C06)\n"
+                     "        (r is Ok) == ((bytes@.len() as int) % (bpp(pixel_format) as int) == 0),\n"
+                     "        r is Ok ==> decodes(r->Ok_0, bytes@, pixel_format) && r->Ok_0.px_len() == (bytes@.len() as int) / (bpp(pixel_format) as int),")},
+        {"kind": "fn", "file": "pixel", "name": "from_raw", "key": "RawPixels::from_raw", "impl_of": "RawPixels", "ret": "r", "rules": ["R1", "R6", "R11"],
+         "sig_rewrites": [("<T: Read>", ""), ("AseReader<T>", "AseReader")],
+         "closures": [{"after": ".and_then(", "params": "bytes: Vec<u8>", "ret": "o: Result<RawPixels>",
+                       "ensures": "(o is Ok) == ((bytes@.len() as int) % (bpp(pixel_format) as int) == 0), o is Ok ==> decodes(o->Ok_0, bytes@, pixel_format) && o->Ok_0.px_len() == (bytes@.len() as int) / (bpp(pixel_format) as int)"}],
+         "prologue": (
+                    "        assert(((bpp(pixel_format) as int) * (expected_pixel_count as int)) % (bpp(pixel_format) as int) == 0 && ((bpp(pixel_format) as int) * (expected_pixel_count as int)) / (bpp(pixel_format) as int) == expected_pixel_count as int) by (nonlinear_arith)\n"
+                    "            requires 1 <= (bpp(pixel_format) as int) <= 4, 0 <= (expected_pixel_count as int);"),
+         "requires": "        bpp(pixel_format) * expected_pixel_count <= usize::MAX,",
+         "ensures": ("        // C05 / C06: a raw cel that loads has exactly the declared number of pixels, decoded from exactly the next bpp * count bytes\n"
+                     "        r is Ok ==> r->Ok_0.px_len() == expected_pixel_count\n"
+                     "            && reader.input.rest().len() >= bpp(pixel_format) * expected_pixel_count\n"
+                     "            && decodes(r->Ok_0, reader.input.rest().subrange(0, bpp(pixel_format) * expected_pixel_count), pixel_format),\n"
+                     "        // C07: bytes after the declared ones do not matter\n"
+                     "        (!reader.input.fails() && reader.input.rest().len() >= bpp(pixel_format) * expected_pixel_count) ==> r is Ok,")},
+        {"kind": "fn", "file": "pixel", "name": "from_compressed", "key": "RawPixels::from_compressed", "impl_of": "RawPixels", "ret": "r", "rules": ["R1", "R6", "R11"],
+         "sig_rewrites": [("<T: Read>", ""), ("AseReader<T>", "AseReader")],
+         "closures": [{"after": ".and_then(", "params": "bytes: Vec<u8>", "ret": "o: Result<RawPixels>",
+                       "ensures": "(o is Ok) == ((bytes@.len() as int) % (bpp(pixel_format) as int) == 0), o is Ok ==> decodes(o->Ok_0, bytes@, pixel_format) && o->Ok_0.px_len() == (bytes@.len() as int) / (bpp(pixel_format) as int)"}],
+         "prologue": (
+                    "        assert(((bpp(pixel_format) as int) * (expected_pixel_count as int)) % (bpp(pixel_format) as int) == 0 && ((bpp(pixel_format) as int) * (expected_pixel_count as int)) / (bpp(pixel_format) as int) == expected_pixel_count as int) by (nonlinear_arith)\n"
+                    "            requires 1 <= (bpp(pixel_format) as int) <= 4, 0 <= (expected_pixel_count as int);"),
+         "requires": "        bpp(pixel_format) * expected_pixel_count <= usize::MAX,",
+         "ensures": ("        // C05 / C06: compressed pixels that load are exactly the declared number of pixels, decoded from the inflated stream\n"
+                     "        r is Ok ==> r->Ok_0.px_len() == expected_pixel_count\n"
+                     "            && inflated(reader.input.rest()).len() >= bpp(pixel_format) * expected_pixel_count\n"
+                     "            && decodes(r->Ok_0, inflated(reader.input.rest()).subrange(0, bpp(pixel_format) * expected_pixel_count), pixel_format),\n"
+                     "        (!reader.input.fails() && !zlib_corrupt(reader.input.rest()) && inflated(reader.input.rest()).len() == bpp(pixel_format) * expected_pixel_count) ==> r is Ok,")},
+        {"kind": "struct", "file": "tile", "name": "TileId", "keep": None, "attrs": "#[derive(Clone, Copy)]\n"},
+        {"kind": "struct", "file": "tile", "name": "Tile", "keep": None},
+        {"kind": "struct", "file": "tile", "name": "Tiles", "keep": None},
+        {"kind": "struct", "file": "tilemap", "name": "TileBitmaskHeader", "keep": None},
+        {"kind": "fn", "file": "tile", "name": "as_bool", "ret": "r", "ensures": "        r == (bitwise_and != 0),"},
+        {"kind": "fn", "file": "tile", "name": "parse", "key": "Tile::parse", "impl_of": "Tile", "ret": "r",
+         "ensures": ("        // C08: the tile id is the masked id bits; the flip / rotate flags are the masked flag bits\n"
+                     "        r.id.0 == bits & header.tile_id, r.flip_x == (bits & header.x_flip != 0), r.flip_y == (bits & header.y_flip != 0), r.rotate_90cw == (bits & header.rotate_90cw != 0),")},
+        {"kind": "verbatim", "text": """
+pub open spec fn le32(b: Seq<u8>, o: int) -> u32 { (b[o] as u32) | ((b[o + 1] as u32) << 8) | ((b[o + 2] as u32) << 16) | ((b[o + 3] as u32) << 24) }
+/// R25: `B.chunks_exact(4).map(|bytes| Tile::new(bytes, header)).collect()` (TRUSTED shim for the iterator chain; Tile::new reads one
+/// little-endian dword and hands it to Tile::parse: Kani k_tile_parse)
+#[verifier::external_body]
+pub fn collect_tiles(b: &Vec<u8>, header: &TileBitmaskHeader) -> (r: Result<Vec<Tile>>)
+    ensures r is Ok, r->Ok_0@.len() == b@.len() / 4,
+        forall|i: int| 0 <= i < r->Ok_0@.len() ==> (#[trigger] r->Ok_0@[i]).id.0 == le32(b@, 4 * i) & header.tile_id,
+{ unimplemented!() }
+"""},
+        {"kind": "fn", "file": "tile", "name": "unzip", "key": "Tiles::unzip", "impl_of": "Tiles", "ret": "r", "rules": ["R1", "R6", "R11"],
+         "sig_rewrites": [("<T: Read>", ""), ("AseReader<T>", "AseReader")],
+         "body_rewrites": [("""bytes
+            .chunks_exact(4)
+            .map(|bytes| Tile::new(bytes, header))
+            .collect()""", "collect_tiles(&bytes, header)")],
+         "requires": "        4 * expected_tile_count <= usize::MAX,",
+         "ensures": ("        // C05 / C08: a tilemap that loads has exactly the declared number of tiles, tile i from inflated bytes 4i .. 4i+4\n"
+                     "        r is Ok ==> r->Ok_0.0@.len() == expected_tile_count && inflated(reader.input.rest()).len() >= 4 * expected_tile_count\n"
+                     "            && forall|i: int| 0 <= i < expected_tile_count ==> (#[trigger] r->Ok_0.0@[i]).id.0 == le32(inflated(reader.input.rest()), 4 * i) & header.tile_id,")},
+    ],
+}
+
+
+# ------------------------------------------------------------------------------------------------
+# Lookups by name / optional lookups / iteration (C01, second sentence): layer_by_name returns the LOWEST-numbered match,
+# LayersIter::next visits the layers once each in index order, get_tag is None out of range
+# ------------------------------------------------------------------------------------------------
+UNITS["lookups"] = {
+    "prelude_sections": [],
+    "items": [
+        {"kind": "struct", "file": "layer", "name": "LayerData", "keep": ["name", "opacity"]},
+        {"kind": "struct", "file": "layer", "name": "LayersData", "keep": ["layers"]},
+        {"kind": "index_impl_check", "file": "layer", "type": "LayersData", "body": "{&self.layers[index as usize]}"},
+        {"kind": "struct", "file": "tags", "name": "Tag", "keep": ["name", "from_frame", "to_frame"]},
+        {"kind": "struct", "file": "file", "name": "AsepriteFile", "keep": ["layers", "tags"]},
+        {"kind": "struct", "file": "layer", "name": "Layer", "keep": None},
+        {"kind": "struct", "file": "file", "name": "LayersIter", "keep": None},
+        {"kind": "verbatim", "text": """
+/// `a == b` on two `&str` (R26): string equality is equality of the character sequences (TRUSTED: std's str PartialEq)
+#[verifier::external_body]
+pub fn str_eq(a: &str, b: &str) -> (r: bool)
+    ensures r == (a@ == b@),
+{ a == b }
+"""},
+        {"kind": "fn", "file": "file", "name": "num_layers", "impl_of": "AsepriteFile", "ret": "r",
+         "requires": "        self.layers.layers.len() <= 65536,", "ensures": "        r as int == self.layers.layers.len(),"},
+        {"kind": "fn", "file": "file", "name": "layer", "key": "AsepriteFile::layer", "impl_of": "AsepriteFile", "ret": "r",
+         "requires": "        self.layers.layers.len() <= 65536, (id as int) < self.layers.layers.len(),",
+         "ensures": "        r.layer_id == id, r.file == self,"},
+        {"kind": "fn", "file": "layer", "name": "data", "key": "Layer::data", "impl_of": "Layer", "impl_header": "<'a> Layer<'a>", "ret": "r", "rules": ["R1", "R6", "R8"],
+         "requires": "        (self.layer_id as int) < self.file.layers.layers.len(),", "ensures": "        *r == self.file.layers.layers[self.layer_id as int],"},
+        {"kind": "fn", "file": "layer", "name": "name", "key": "Layer::name", "impl_of": "Layer", "impl_header": "<'a> Layer<'a>", "ret": "r",
+         "requires": "        (self.layer_id as int) < self.file.layers.layers.len(),", "ensures": "        r@ == self.file.layers.layers[self.layer_id as int].name@,"},
+        {"kind": "fn", "file": "file", "name": "layer_by_name", "impl_of": "AsepriteFile", "ret": "r",
+         "body_rewrites": [("l.name() == name", "str_eq(l.name(), name)"), ("for layer_id in 0..self.num_layers() {", "for layer_id in it: 0..self.num_layers() {")],
+         "requires": "        self.layers.layers.len() <= 65536,",
+         "ensures": ("        // C01: Some exactly if a layer has that name, and then the one with the LOWEST id\n"
+                     "        r is Some <==> exists|j: int| 0 <= j < self.layers.layers.len() && (#[trigger] self.layers.layers[j]).name@ == name@,\n"
+                     "        r is Some ==> (r->0).file == self && ((r->0).layer_id as int) < self.layers.layers.len()\n"
+                     "            && self.layers.layers[(r->0).layer_id as int].name@ == name@\n"
+                     "            && forall|j: int| 0 <= j < (r->0).layer_id ==> (#[trigger] self.layers.layers[j]).name@ != name@,"),
+         "loops": {1: ("            invariant\n"
+                       "                self.layers.layers.len() <= 65536, it.snapshot@.remaining().len() == self.layers.layers.len(),\n"
+                       "                forall|j: int| 0 <= j < it.index@ ==> (#[trigger] self.layers.layers[j]).name@ != name@,")}},
+        {"kind": "fn", "file": "file", "name": "layers", "impl_of": "AsepriteFile", "ret": "r", "ensures": "        r.file == self, r.next == 0,"},
+        {"kind": "fn", "file": "file", "name": "next", "key": "LayersIter::next", "impl_of": "LayersIter", "impl_filter": r"impl<'a>\s+Iterator\s+for\s+LayersIter<'a>", "impl_header": "<'a> LayersIter<'a>", "ret": "r",
+         "sig_rewrites": [("Self::Item", "Layer<'a>")],
+         "requires": "        old(self).file.layers.layers.len() <= 65536,",
+         "ensures": ("        // C01: iteration visits layer 0, 1, .., n-1 once each, then ends - and stays ended\n"
+                     "        final(self).file == old(self).file,\n"
+                     "        (old(self).next as int) < old(self).file.layers.layers.len() ==> r is Some && (r->0).layer_id == old(self).next && (r->0).file == old(self).file && final(self).next == old(self).next + 1,\n"
+                     "        (old(self).next as int) >= old(self).file.layers.layers.len() ==> r is None && final(self).next == old(self).next,")},
+        {"kind": "fn", "file": "tags", "name": "name", "key": "Tag::name", "impl_of": "Tag", "ret": "r", "ensures": "        r@ == self.name@,"},
+        {"kind": "fn", "file": "file", "name": "num_tags", "impl_of": "AsepriteFile", "ret": "r", "requires": "        self.tags.len() <= 0xffff_ffff,", "ensures": "        r as int == self.tags.len(),"},
+        {"kind": "fn", "file": "file", "name": "get_tag", "impl_of": "AsepriteFile", "ret": "r",
+         "ensures": "        (r is Some) == ((tag_id as int) < self.tags.len()), r is Some ==> *(r->0) == self.tags[tag_id as int],"},
     ],
 }
